@@ -28,12 +28,58 @@ def c01(run, tier):
         run.trace_validate(["-fam", "paths", "-n", str(Q(tier, 2500, 20000)), "-sub", str(i)], "paths%d" % i)
 
 
+def paths_family(run, tier, fam, mc_cfg, order, value, trace_fam, mc_nodes, gen_nodes):
+    scale = '"%s"' % Q(tier, "small", "full")
+    cfg = run.cfg(mc_cfg, {"MaxNodes": mc_nodes, "Scale": scale}, "mc.cfg")
+    ok, out = run.tlc_mc("MC_Paths", cfg, "laws", timeout=Q(tier, 400, 2400))
+    if not ok:
+        raise_spec(run, "MC_Paths invariant violated", out)
+    cfg = run.cfg("Gen_Paths.cfg", {"MaxNodes": gen_nodes, "Family": '"%s"' % fam, "Scale": scale}, "gen.cfg")
+    rep = run.tlc_gen_replay("MC_Paths", cfg, fam, timeout=Q(tier, 400, 2400))
+    aspects = set()
+    if value:
+        aspects |= VALUE_ASPECTS
+    if order:
+        aspects |= ORDER_ASPECTS
+    run.absorb(rep, aspects)
+    for i in range(Q(tier, 1, 4)):
+        run.trace_validate(["-fam", trace_fam, "-n", str(Q(tier, 2500, 20000)), "-sub", str(i)], "%s%d" % (trace_fam, i),
+                           order_aspect=order, value_aspect=value)
+
+
+def c02(run, tier):
+    paths_family(run, tier, "C02", "MC_Paths.cfg", False, True, "preds", Q(tier, 5, 6), Q(tier, 5, 6))
+
+
+def c03(run, tier):
+    paths_family(run, tier, "C03", "MC_C03.cfg", True, False, "paths", Q(tier, 4, 5), Q(tier, 5, 6))
+    # the C01 step cases judged for order / duplicates as well
+    cfg = run.cfg("Gen_C01.cfg", {"MaxNodes": Q(tier, 4, 5)}, "gen01.cfg")
+    rep = run.tlc_gen_replay("MC_C01", cfg, "steps", timeout=Q(tier, 300, 1800))
+    run.absorb(rep, ORDER_ASPECTS)
+
+
+def c18(run, tier):
+    paths_family(run, tier, "C18", "MC_C18.cfg", False, True, "paths", Q(tier, 5, 6), Q(tier, 5, 6))
+
+
 def raise_spec(run, what, out):
     from check import Infra
     raise Infra("%s -- the specification itself is inconsistent (machinery problem, not a verdict):\n%s" % (what, run.tail(out)))
 
 
+PATH_RULE = ("TLC enumerates every document of the Store machine over elements a/b, attribute x, text '1' within the node bound and evaluates "
+             "the family's expression pool from every node (absolute forms from the root); the harness replays each case in unabbreviated and "
+             "abbreviated syntax on the real evaluator; recorded random sessions (documents up to 30 nodes, depth-2 expressions) are judged by "
+             "Trace_Xsel; non-trivial = specified value is a non-empty node-set / non-NaN number / non-empty string / true")
+
 PROPS = {
+    "C02": {"run": c02, "rule": PATH_RULE + "; pool: 12 (quick 7) axes x 3 tests x 21 predicates, two-predicate chains, filter expressions with continuations",
+            "exhaustive": {"quick": True, "thorough": True}, "assumptions": BASE_ASSUME},
+    "C03": {"run": c03, "rule": PATH_RULE + "; pool: 12 node-set operands, all pairwise unions, nested unions, count() of unions; every case is judged for "
+            "duplicates, foreign nodes, Pos() monotonicity and direction", "exhaustive": {"quick": True, "thorough": True}, "assumptions": BASE_ASSUME},
+    "C18": {"run": c18, "rule": PATH_RULE + "; pool: 10 relative suffixes from every start node, 5 prefixes x suffixes from the root, P/f() and f(P) for the "
+            "seven context-dependent builtins", "exhaustive": {"quick": True, "thorough": True}, "assumptions": BASE_ASSUME},
     "C01": {
         "run": c01,
         "rule": "TLC enumerates every document the Store machine can build within the node bound (all kinds, names a/b x {no namespace,U1}), "
